@@ -65,7 +65,7 @@ def rule_tile(chk):
     ti = [c for c in F.exprs(t, "Call") if short(c.get("fn") or "") == "token_intermediate"]
     ok_a = False
     if len(ti) == 1:
-        a0 = F.strip(ti[0]["args"][0])
+        a0 = F.strip(F.inline_lets(t, ti[0]["args"][0]))
         idx = a0 if a0.get("k") == "Index" else None
         if idx is None and a0.get("k") == "Call" and short(a0.get("fn") or "") == "index":
             idx = {"e": a0["args"][0], "i": a0["args"][1]}
@@ -101,9 +101,10 @@ def rule_tile(chk):
                         if l_ok and r_ok:
                             end_var = s["pat"]["id"]
                             ok_end = True
-            news = [c for c in F.exprs(body, "Call") if short(c.get("fn") or "") == "new" and "PreprocessToken" in (c.get("fn") or "")]
+            is_new = lambda c: short(c.get("fn") or "") == "new" and "PreprocessToken" in (c.get("fn") or "")
+            news = [(a_, n_) for a_, n_ in F.calls_through_wrappers(f, dict(nx, thir=body), is_new)]
             if news and end_var is not None:
-                a = news[0]["args"]
+                a = news[0][0]
                 st = [x["name"] for x in F.exprs(a[2], "Field")]
                 ev = F.leftmost_var(a[3])
                 ok_span = st == ["current_offset"] and ev is not None and ev["id"] == end_var \
@@ -112,7 +113,7 @@ def rule_tile(chk):
                 if len(asg) == 1:
                     rv = F.leftmost_var(asg[0]["r"])
                     ok_adv = rv is not None and rv["id"] == end_var and F.strip(asg[0]["r"]).get("k") == "Var" \
-                        and (asg[0].get("ln") or 0) >= (news[0].get("ln") or 0)
+                        and ((asg[0].get("ln") or 0) >= (news[0][1].get("ln") or 0) or news[0][1].get("ln") is None or not any(news[0][1] is x for x in F.walk(body)))
     chk.ob("C10.tile/end-from-remaining", ok_end, "token end = input.len() - remaining.len()" if ok_end else
            "the token end is no longer `input_bytes.len() - remaining.len()`", where(nx))
     chk.ob("C10.tile/span", ok_span, "span = [current_offset, end) without arithmetic" if ok_span else
@@ -121,12 +122,11 @@ def rule_tile(chk):
            "current_offset is not advanced to exactly the token end after building the token (tokens would overlap or leave gaps)", where(nx))
     # (e) synthetic endline
     ok_e = False
-    for c in F.exprs(t, "Call"):
-        if short(c.get("fn") or "") == "new" and "PreprocessToken" in (c.get("fn") or ""):
-            tk = F.adt_ctor(c["args"][0])
+    for args_, c in F.calls_through_wrappers(f, nx, lambda c: short(c.get("fn") or "") == "new" and "PreprocessToken" in (c.get("fn") or "")):
+            tk = F.adt_ctor(args_[0])
             if tk and tk[1] == "Endline":
-                s1 = [x["name"] for x in F.exprs(c["args"][2], "Field")]
-                s2 = [x["name"] for x in F.exprs(c["args"][3], "Field")]
+                s1 = [x["name"] for x in F.exprs(args_[2], "Field")]
+                s2 = [x["name"] for x in F.exprs(args_[3], "Field")]
                 ok_e = s1 == ["current_offset"] and s2 == ["current_offset"]
     chk.ob("C10.tile/eof-endline", ok_e, "synthetic end-of-file Endline has the empty span [offset, offset)" if ok_e else
            "the synthetic end-of-file Endline no longer has an empty span at the current offset", where(nx))
@@ -193,7 +193,7 @@ def rule_int(chk):
             continue
         tab = {}
         narrow = {}
-        for m in F.exprs(fn["thir"], "Match"):
+        for m in F.exprs_deep(f, fn, "Match", depth=1):
             for arm in m["arms"]:
                 alt = F.pat_alternatives(arm["pat"])[0]
                 pv = F.pat_variant(alt)
